@@ -18,7 +18,8 @@ RULE = ('ptb: trees over the English lexicon (licensed + arbitrary, unary and bi
 ASSUMPTIONS = ['token domains: no blank, no backslash; ptb: round brackets only as whole tokens; ja: none of / { } and no -LRB- style spelling',
                'ja trees carry the rule symbols of the Japanese grammar (the reader recognises exactly those)']
 REQUIRED_MONITORS = {'read_ptb:trees': 200, 'read_ptb:incomplete-lines': 500, 'read_ccgbank:trees-plain': 200,
-                     'read_ccgbank:trees-annotated': 200, 'ptb:bracket-tokens': 20}
+                     'read_ccgbank:trees-annotated': 200, 'ptb:bracket-tokens': 20,
+                     'read_ptb:long-chains': 2, 'read_ccgbank:long-chains': 2}
 
 
 def shards(tier, seed):
